@@ -262,7 +262,49 @@ def sql_tie(modules, timeout=600):
     return problems
 
 
-def audit(theorems, timeout=3000, schema_groups=(), sql_modules=()):
+def modules_of(theorems):
+    """the library modules that declare the given property theorems, with everything of the library they import"""
+    decl = {}
+    props = os.path.join(LEAN_DIR, "SpowtdModel", "Props")
+    for f in sorted(os.listdir(props)):
+        if f.endswith(".lean"):
+            with open(os.path.join(props, f)) as fh:
+                src = strip_comments(fh.read())
+            for m in re.finditer(r"^theorem\s+([\w'.]+)", src, flags=re.M):
+                decl.setdefault("Spowtd." + m.group(1), "SpowtdModel.Props." + f[:-5])
+    todo = sorted({decl[t] for t in theorems if t in decl})
+    seen = []
+    while todo:
+        mod = todo.pop()
+        if mod in seen:
+            continue
+        seen.append(mod)
+        path = os.path.join(LEAN_DIR, *mod.split(".")) + ".lean"
+        if os.path.exists(path):
+            with open(path) as fh:
+                for line in fh:
+                    m = re.match(r"import\s+(SpowtdModel\.[\w.]+)", line)
+                    if m:
+                        todo.append(m.group(1))
+    return sorted(seen)
+
+
+def leanchecker(theorems, timeout=3000):
+    """thorough tier: replay the compiled declarations of the property's modules through Lean's independent
+    re-checker (`leanchecker`, a separate kernel pass over the .olean files)"""
+    mods = modules_of(theorems)
+    if not mods:
+        return ["leanchecker: no module declares the property's theorems"]
+    try:
+        p = subprocess.run(["lake", "env", "leanchecker"] + mods, cwd=LEAN_DIR, capture_output=True, text=True, timeout=timeout)
+    except FileNotFoundError:
+        return []
+    if p.returncode != 0:
+        return ["leanchecker rejects %s: %s" % (" ".join(mods)[:200], (p.stdout + p.stderr)[-500:])]
+    return []
+
+
+def audit(theorems, timeout=3000, schema_groups=(), sql_modules=(), tier="quick"):
     """Build the Lean project, grep for escape hatches, check axioms of `theorems`.
 
     Returns a dict: ok, build_ok, problems [...], axioms {thm: [..]}, cmd.
@@ -284,6 +326,12 @@ def audit(theorems, timeout=3000, schema_groups=(), sql_modules=()):
         if tie2:
             out["ok"] = False
             out["problems"] += tie2
+        if tier == "thorough":
+            lc = leanchecker(theorems)
+            out["leanchecker"] = {"modules": modules_of(theorems), "ok": not lc}
+            if lc:
+                out["ok"] = False
+                out["problems"] += lc
     return out
 
 
